@@ -124,7 +124,7 @@ def _is_mark(ev, which):
 # ------------------------------------------------------------------ translation
 
 
-def translate(text, watch_dir):
+def translate(text, watch_dir, snap=None):
     """Translate the marked section of the forked child.
 
     Returns dict(ops=[...], sites=[...], injected=idx|None, killed=bool, complete=bool)
@@ -150,6 +150,7 @@ def translate(text, watch_dir):
     inside = False
     ops, sites, attempts = [], [], []
     wfd, rofd, dirfd = set(), set(), {}
+    fdpath, fdoff = {}, {}     # for sendfile/copy_file_range: where the descriptor writes next
     killed = False
     complete = False
     injected = None
@@ -224,6 +225,7 @@ def translate(text, watch_dir):
                         dirfd[fd] = p
                     elif writing or "O_CREAT" in fl or "O_TRUNC" in fl:
                         wfd.add(fd)
+                        fdpath[fd], fdoff[fd] = p, 0
                         op = ("open", fd, p, "O_CREAT" in fl, "O_EXCL" in fl, "O_TRUNC" in fl)
                     else:
                         rofd.add(fd)
@@ -236,11 +238,30 @@ def translate(text, watch_dir):
             except ValueError:
                 raise TranslateError(f"non-numeric descriptor in {ev['raw']!r}") from None
             if name in ("sendfile", "copy_file_range"):
-                fds_used = {fd}
-                for a in args[1:3]:
-                    if re.fullmatch(r"\d+", a):
-                        fds_used.add(int(a))
-                if fds_used & wfd:
+                # in-kernel copy (shutil.copyfile): sendfile(out, in, offset, count) /
+                # copy_file_range(in, off_in, out, off_out, len, flags).  strace cannot show the
+                # bytes; they are recovered from the file as it is found afterwards (the
+                # descriptor is written sequentially from its tracked offset; anything else
+                # is refused).
+                if name == "sendfile":
+                    out_fd, in_fd, off_ok = fd, int(args[1]) if re.fullmatch(r"\d+", args[1]) else -1, True
+                else:
+                    out_fd = int(args[2]) if re.fullmatch(r"\d+", args[2]) else -1
+                    in_fd, off_ok = fd, args[3] == "NULL"
+                if out_fd in wfd:
+                    touches = True
+                    if in_fd in wfd or not off_ok or snap is None:
+                        raise TranslateError(f"unsupported in-kernel copy on a watched descriptor: {ev['raw']!r}")
+                    if ok and int(ret) > 0:
+                        rel = fdpath[out_fd][len(watch) + 1:]
+                        pos, n = fdoff[out_fd], int(ret)
+                        data = (snap.get(rel) or b"")[pos:pos + n]
+                        if len(data) != n:
+                            raise TranslateError(f"cannot recover the {n} bytes copied by {name} into {rel!r}")
+                        fdoff[out_fd] = pos + n
+                        op = ("write", out_fd, data)
+                    fd = out_fd
+                elif in_fd in wfd and out_fd in wfd:
                     raise TranslateError(f"unsupported call on a watched descriptor: {ev['raw']!r}")
             elif fd in wfd:
                 touches = True
@@ -252,6 +273,7 @@ def translate(text, watch_dir):
                         raise TranslateError("write data truncated by strace")
                     if ok:
                         op = ("write", fd, data[: int(ret)])
+                        fdoff[fd] = fdoff.get(fd, 0) + int(ret)
                 elif name == "pwrite64":
                     data = _str_arg(args[1])
                     if data is None:
@@ -262,6 +284,7 @@ def translate(text, watch_dir):
                     touches = False
                     if ok and not (args[1] == "0" and args[2] == "SEEK_CUR"):
                         op = ("seek", fd, int(ret))
+                        fdoff[fd] = int(ret)
                 elif name == "ftruncate":
                     if ok:
                         op = ("trunc", fd, int(args[1]))
@@ -285,10 +308,13 @@ def translate(text, watch_dir):
                 if name == "renameat2" and args[4] not in ("0", "0x0"):
                     if inwatch(a) or inwatch(b):
                         raise TranslateError(f"unsupported renameat2 flags {args[4]}")
-            if inwatch(a) or inwatch(b):
-                touches = True
-                if not (inwatch(a) and inwatch(b)):
+            if (inwatch(a) or inwatch(b)) and not (inwatch(a) and inwatch(b)):
+                # into / out of the watched directory: a FAILED attempt (EXDEV: another file
+                # system) changes nothing; a successful one moves content the trace never saw
+                if ok:
                     raise TranslateError(f"rename across the watched directory: {a!r} -> {b!r}")
+            elif inwatch(a) and inwatch(b):
+                touches = True
                 if ok:
                     op = ("rename", a, b)
         elif name in ("unlink", "unlinkat"):
@@ -368,7 +394,7 @@ def run_action(spec, inject=None, timeout=120):
             res["error"] = f"child driver failed: rc={p.returncode} {status} {p.stderr[-800:]}"
             return res
         try:
-            res["trace"] = translate(text, spec["dir"])
+            res["trace"] = translate(text, spec["dir"], res["snapshot"])
         except TranslateError as e:
             res["error"] = f"translate: {e}"
         return res
